@@ -19,6 +19,7 @@
  *       distrm | distrmdepth <depth> | distfail | disthandle <name> <0 report|1 transform|3 release_remove> | mreg <name> <flags> | mset <id> <numaidx> <-|set> <value> | kind <set> <eff> <name> <value>
  *       robj <depth> <idx> <flags> (restrict to that object's cpuset/nodeset) | gobj <depth> <i> <j> | kobj <depth> <idx> <eff> <name> <value>
  *       mseto <id> <numaidx> <depth> <idx> <value> | obs | (depth >= 1000: depth of type depth-1000)
+ *       subtype <depth> <idx> <string|-> |
  *       infoclr <depth> <idx> | tinfoclr | kinfoclr <kind> | kinfo <kind> <name> <value> | udclr <depth> <idx>   (emptied, still allocated arrays)
  *       info <depth> <idx> <name> <value> | tinfo <name> <value> | refresh | allow <flags> | ud <depth> <idx> | tud | cb
  * ASan/LSan verdicts are the process exit code (97/98/96). */
@@ -175,6 +176,7 @@ static int apply_op(hwloc_topology_t t, char *op, int *handled)
     if (rc < 0 || !in) return -2;
     return hwloc_modify_infos(in, HWLOC_MODIFY_INFOS_OP_ADD, a2, a3);
   }
+  if (sscanf(op, "subtype %d %u %255s", &d, &u, a2) == 3) { hwloc_obj_t o = objat(t, d, u); if (!o) { errno = ENOENT; return -2; } return hwloc_obj_set_subtype(t, o, strcmp(a2, "-") ? a2 : NULL); }
   if (sscanf(op, "udclr %d %u", &d, &u) == 2) { hwloc_obj_t o = objat(t, d, u); if (!o) { errno = ENOENT; return -2; } o->userdata = NULL; return 0; }
   if (sscanf(op, "tinfo %255s %255s", a2, a3) == 2) return hwloc_modify_infos(hwloc_topology_get_infos(t), HWLOC_MODIFY_INFOS_OP_ADD, a2, a3);
   if (!strcmp(op, "refresh")) return hwloc_topology_refresh(t);
